@@ -220,6 +220,11 @@ def runCase (j : Json) : E Json := do
       | none => some (lo + i)
       | some k => if Key.decodeKey off k == [lo + i] then none else some (lo + i)
     pure (Json.mkObj [("status", "ok"), ("kind", "invalid"), ("value", toJson bad)])
+  | "storekey" =>
+    -- the constructor's treatment of an exponent row given as 64-bit integers (repaired / before D56)
+    let e ← (← jList (← j.getObjVal? "e")).mapM fun v => v.getInt?
+    pure (Json.mkObj [("status", "ok"), ("kind", "key"), ("value", toJson (Key.storeKey Generated.keyOffset e)),
+      ("old", toJson (Key.storeKeyOld Generated.keyOffset e))])
   | "mulkey" =>
     let e1 ← jNats (← j.getObjVal? "e1")
     let e2 ← jNats (← j.getObjVal? "e2")
